@@ -37,7 +37,18 @@ STREAMS = {
     "decode": {"n": {"quick": 4000, "thorough": 150000}, "nontrivial": nt_decode},
     "decode-enum": {"n": {"quick": 11, "thorough": 16}, "nontrivial": nt_decode},
     "build": {"n": {"quick": 500, "thorough": 20000}, "nontrivial": nt_build},
+    "agent-seq": {"n": {"quick": 3, "thorough": 4}, "nontrivial": None},
 }
+
+
+def nt_agent(ops, impl):
+    """non-trivial agent history: at least one successful Start and one terminal event"""
+    started = any(o.startswith("AG start") and r.startswith("ret=ok") for o, r in zip(ops, impl))
+    term = any(("stopped" in r or "timeout" in r or ":closed" in r or ":msg" in r) for r in impl)
+    return started and term
+
+
+STREAMS["agent-seq"]["nontrivial"] = nt_agent
 
 COMMON_TRUSTED = []
 
@@ -122,5 +133,17 @@ PROPS = {
         "rule": "setters with values on both sides of every limit (text 0..limit+300, IP lengths 0..20, error codes "
                 "0..999, integrity after fingerprint) inside random building sequences; the full message state is "
                 "dumped after every call, failing or not",
+    },
+    "C13": {
+        "modules": ["Stun.Properties.C13"],
+        "theorems": ["Stun.C13.exactly_one_terminal", "Stun.C13.step_spec", "Stun.C13.inv_init", "Stun.C13.after_close",
+                     "Stun.C13.start_ok_iff", "Stun.C13.stop_spec", "Stun.C13.process_spec", "Stun.C13.collect_spec",
+                     "Stun.C13.close_spec"],
+        "streams": ["agent-seq"],
+        "level": "proof",
+        "rule": "all call sequences to the depth bound over 3 ids (two differing in one bit), deadlines on both sides "
+                "of 4 collect times, SetHandler and Close (exhaustive), plus long random sequences (<= 2000 calls, "
+                "<= 64 ids); return value and sorted events per call; non-trivial = a successful Start and a "
+                "terminal event",
     },
 }
